@@ -121,6 +121,8 @@ pub struct ServerStream {
     filter: HFilter,
     reference: RefServer,
     tokens: Option<Tokens>,
+    /// (ip, token) pairs `tok gen` has issued in this case
+    issued_direct: std::collections::HashSet<(std::net::Ipv4Addr, Vec<u8>)>,
 }
 
 impl ServerStream {
@@ -135,6 +137,7 @@ impl ServerStream {
             filter: HFilter::All,
             reference: RefServer { epoch: 0, last_rot: 0, issued: HashMap::new(), imm: RefLru::new(1), mutable: RefLru::new(1), peers: RefLru::new(1), signed: RefLru::new(1), max_peers: 1 },
             tokens: None,
+            issued_direct: Default::default(),
         }
     }
 
@@ -457,6 +460,7 @@ impl Stream for ServerStream {
                 dht::verif::set_now_ns(args[2].parse().expect("t0"));
                 dht::verif::seed_thread(args[1].parse().expect("seed"));
                 self.tokens = Some(Tokens::new());
+                self.issued_direct.clear();
                 self.t0 = dht::verif::now_ns();
             }
             _ => {}
@@ -501,8 +505,27 @@ impl Stream for ServerStream {
                 }
                 "ok".into()
             }
-            ["tok", "gen", addr] => self.tokens.as_mut().map(|t| hex(&t.generate_token(parse_addr(addr)))).unwrap_or("bad-op".into()),
-            ["tok", "val", addr, token] => self.tokens.as_mut().map(|t| t.validate(parse_addr(addr), &unhex(token)).to_string()).unwrap_or("bad-op".into()),
+            ["tok", "gen", addr] => match self.tokens.as_mut() {
+                Some(t) => {
+                    let a = parse_addr(addr);
+                    let tok = t.generate_token(a);
+                    self.issued_direct.insert((*a.ip(), tok.to_vec()));
+                    hex(&tok)
+                }
+                None => "bad-op".into(),
+            },
+            ["tok", "val", addr, token] => match self.tokens.as_mut() {
+                Some(t) => {
+                    let a = parse_addr(addr);
+                    let tok = unhex(token);
+                    let ok = t.validate(a, &tok);
+                    if ok && !self.issued_direct.contains(&(*a.ip(), tok.clone())) {
+                        out.violation("C15", "never-issued-token-accepted", format!("token {} was never issued to {} but validates for it", hex(&tok), a.ip()));
+                    }
+                    ok.to_string()
+                }
+                None => "bad-op".into(),
+            },
             ["req", ..] => {
                 let Some((from, req)) = Self::parse_request(&t) else { return "bad-op".into() };
                 let now = dht::verif::now_ns();
@@ -590,6 +613,16 @@ impl Gen {
         match self.rng.below(20) {
             0 => vec![],
             1 => self.rng.bytes(4),
+            7 | 8 => {
+                // a guess: the token a predictable secret (all zero, all ones, none) would give this ip
+                let mut data = from.ip().octets().to_vec();
+                match self.rng.below(3) {
+                    0 => data.extend_from_slice(&[0u8; 20]),
+                    1 => data.extend_from_slice(&[0xffu8; 20]),
+                    _ => {}
+                }
+                crc32c_ref(&data).to_be_bytes().to_vec()
+            }
             2 => self.foreign_tokens.last().cloned().unwrap_or(vec![1, 2, 3, 4]),
             3 => {
                 // a token issued to another ip
@@ -656,6 +689,16 @@ pub fn run(out: &mut Out, seed: u64, thorough: bool, replay: Option<&str>) {
                 }
                 8 => {
                     out.run(&mut s, "tok rotate".into());
+                }
+                9 if step % 2 == 0 => {
+                    // a guessed token: predictable secret, for one of the ips
+                    let ip = *rng.pick(&ips);
+                    let mut data = ip.to_be_bytes().to_vec();
+                    if rng.chance(2, 3) {
+                        data.extend_from_slice(&[if rng.chance(1, 2) { 0u8 } else { 0xff }; 20]);
+                    }
+                    let t = hex(&crc32c_ref(&data).to_be_bytes());
+                    out.run(&mut s, format!("tok val {}:{} {}", ip, 7, t));
                 }
                 _ => {
                     let ip = *rng.pick(&ips);
